@@ -340,4 +340,21 @@ def readBIT (file : List Nat) : Except Err (List LogPassOut) :=
   let w := walk (file.length + 1) file 0 ⟨0, 0, 0, 0⟩
   consume w.2 w.1 [] none
 
+/-! ## The open handle: content + position -/
+
+/-- An open binary file: its bytes and the current position (what `file.tell()` returns). -/
+structure Handle where
+  bytes : List Nat
+  pos : Nat
+
+/-- `file.seek(k)` -/
+def Handle.seek (h : Handle) (k : Nat) : Handle := { h with pos := k }
+
+/-- `create_bit_frame_array_from_file(h)` on a handle at ANY position: `yield_tif_blocks` starts with `file.seek(0)`,
+then reads from the handle's position. -/
+def readHandle (h : Handle) : Except Err (List LogPassOut) :=
+  let h0 := h.seek 0                                           -- file.seek(0)
+  let w := walk (h0.bytes.length + 1) (h0.bytes.drop h0.pos) h0.pos ⟨0, 0, 0, 0⟩
+  consume w.2 w.1 [] none
+
 end TD.C13
